@@ -58,7 +58,13 @@ def spec_text(spec, variant):
         alts.append("lpar E rpar")
     for a in spec["atoms"]:
         alts.append(a)
-    lines = ["E: " + "\n | ".join(alts) + ";", "terminals"]
+    head = "E"
+    if spec.get("rule_level") and variant == "dyn":
+        # the same marks written once, as rule-level meta-data (E {dynamic}: ...): every production of E
+        # is marked then, which is what the spec's per-production marks say for this spec
+        alts = [a.replace(" {dynamic}", "") for a in alts]
+        head = "E {dynamic}"
+    lines = [head + ": " + "\n | ".join(alts) + ";", "terminals"]
     seen = set()
     terms = [(op["tname"], op["text"], op["tdyn"]) for op in spec["ops"]]
     if pre:
@@ -125,6 +131,9 @@ def gen_spec(rng, i):
                               "tdyn": (mark_mode in ("full", "terms")) or
                                       (mark_mode == "subset" and rng.random() < 0.6),
                               "level": rng.randint(1, nlev + 1), "assoc": "left", "pdyn": pd}
+    if mark_mode in ("full", "prods") and all(o["pdyn"] for o in ops) and \
+            (not spec.get("prefix") or spec["prefix"]["pdyn"]) and i % 2 == 0:
+        spec["rule_level"] = True
     return spec
 
 
